@@ -102,3 +102,10 @@ Proof.
   destruct (o_stream o) as [writes|]; [|reflexivity]. cbn [option_map].
   destruct et; [|reflexivity]. rewrite object_stream_rt_l by assumption. reflexivity.
 Qed.
+
+(* objects of any type: the traversal is defined on the rendered value *)
+Lemma obj_rt_rendered_l (A : Type) (render : A -> native) c ivs siv r sh sh' (o : A) stream :
+  obj_ok c ivs siv (dobj_of render r sh o stream) ->
+  read_obj c r sh' (write_obj c ivs siv (dobj_of render r sh o stream))
+  = Ok (strings_of (render o), option_map (@concat _) stream).
+Proof. intros H. exact (obj_rt_l c ivs siv (dobj_of render r sh o stream) sh' H). Qed.
